@@ -227,7 +227,16 @@ class Server:
                 f.write("\n")  # I like my JSON with a trailing newline
             while True:
                 with server:
-                    data = receive(server)
+                    try:
+                        data = receive(server)
+                    except OSError as err:
+                        # The client went away or sent something that is not a request.
+                        # Tell it (if it is still there) and keep serving other clients.
+                        try:
+                            send(server, {"error": f"Bad request: {err}", "final": True})
+                        except OSError:
+                            pass
+                        continue
                     sys.stdout = WriteToConn(server, "stdout", sys.stdout.isatty())
                     sys.stderr = WriteToConn(server, "stderr", sys.stderr.isatty())
                     resp: dict[str, Any] = {}
